@@ -266,6 +266,46 @@ def spec_enum_pair(a, b):
                 warm=['0, 1, 1, 0', '2, 0, 0, 2', f'{na}, 0, 0, {nb}'], timeout=400, stubs=False)
 
 
+MENUS = {
+    'bool': "[True, False, 1, None]",
+    'enum': "ENUMS['{o}'] + [None]",
+    'cls': "[VerifError, VerifWarning, None, int]",
+    'claw_skip_package_names': "SKIPS[:7]",
+    'hint_overrides': "OVS[:6]",
+}
+MENU_LEN = {'bool': 4, 'cls': 4, 'claw_skip_package_names': 7, 'hint_overrides': 6}
+
+
+def _menu(o):
+    if o in BOOL_OPTS:
+        return MENUS['bool'], 4
+    if o in ENUM_OPTS:
+        return MENUS['enum'].format(o=o), ENUM_OPTS[o] + 1
+    if o in CLS_OPTS:
+        return MENUS['cls'], 4
+    return MENUS[o], MENU_LEN[o]
+
+
+ALL_OPTS = None
+
+
+def all_options():
+    return BOOL_OPTS + list(ENUM_OPTS) + CLS_OPTS + ['claw_skip_package_names', 'hint_overrides']
+
+
+def spec_generic_pair(a, b):
+    """Any two options, each over a small menu of valid and invalid values picked by a symbolic index; two
+    creations with the keywords in opposite orders (plus the kwargs round trip of every valid one)."""
+    ma, na = _menu(a)
+    mb, nb = _menu(b)
+    params = [('i1', 'int'), ('j1', 'int'), ('i2', 'int'), ('j2', 'int')]
+    body = (f"A = {ma}\nB = {mb}\n"
+            f"return check_history([{{'{a}': pick(A, i1), '{b}': pick(B, j1)}}, {{'{b}': pick(B, j2), '{a}': pick(A, i2)}}])")
+    return Spec(f'pair_{a}__{b}', params, body, setup=SETUP,
+                pre=[f'0 <= i1 < {na}', f'0 <= i2 < {na}', f'0 <= j1 < {nb}', f'0 <= j2 < {nb}'],
+                warm=['0, 0, 0, 0', '1, 1, 0, 0', f'{na - 1}, {nb - 1}, 0, 1'], timeout=600, stubs=False)
+
+
 def spec_cls(a):
     """Class-valued option a: valid and invalid classes by index, two creations."""
     params = [('i1', 'int'), ('i2', 'int')]
@@ -341,6 +381,9 @@ def spec_cls_bool(a, b):
 
 
 def specs(tier, seed=0):
+    import random as _random
+    opts = all_options()
+    every_pair = [(a, b) for a, b in itertools.combinations(opts, 2)]
     out = [spec_single(a) for a in BOOL_OPTS]
     pairs = list(itertools.combinations(BOOL_OPTS, 2))
     if tier == 'quick':
@@ -351,6 +394,9 @@ def specs(tier, seed=0):
                 spec_coll('claw_skip_package_names', 13), spec_coll('hint_overrides', 8), spec_tower(),
                 spec_lookalike('is_debug'), spec_lookalike('is_color'),
                 spec_enum_pair('claw_decor_place_func', 'claw_decor_place_type')]
+        # a seed-dependent handful of the 136 option pairs (all of them in the thorough tier)
+        rng = _random.Random(f'c17:{seed}')
+        out += [spec_generic_pair(a, b) for a, b in rng.sample(every_pair, 4)]
         return out
     out += [spec_bool_pair(a, b) for a, b in pairs]
     out += [spec_triple(a) for a in BOOL_OPTS]
@@ -363,6 +409,7 @@ def specs(tier, seed=0):
     out.append(spec_cls_quad(2))
     out.append(spec_cls_quad(3))
     out += [spec_lookalike(a) for a in BOOL_OPTS]
+    out += [spec_generic_pair(a, b) for a, b in every_pair]
     out += [spec_enum_pair('claw_decor_place_func', 'claw_decor_place_type'), spec_enum_pair('strategy', 'violation_verbosity'),
             spec_enum_pair('claw_decor_place_type', 'strategy')]
     out += [spec_tower(), spec_coll('claw_skip_package_names', 13), spec_coll('hint_overrides', 8),
